@@ -73,6 +73,10 @@ def _frange(e, cache, atom):
             r = (round_down(lo + c[0]) if not math.isnan(lo + c[0]) else -INF, round_up(hi + c[1]) if not math.isnan(hi + c[1]) else INF, nan)
         elif op == 'fneg':
             a = rec(n.args[0]); r = (-a[1], -a[0], a[2])
+        elif op == 'frem':
+            a, b = rec(n.args[0]), rec(n.args[1])
+            m = max(abs(b[0]), abs(b[1]))
+            r = (-m, m, a[2] or b[2] or abs(a[0]) == INF or abs(a[1]) == INF or (b[0] <= 0 <= b[1]))
         elif op == 'fdiv':
             a, b = rec(n.args[0]), rec(n.args[1])
             if b[0] > 0 or b[1] < 0:
@@ -143,13 +147,31 @@ def _frange(e, cache, atom):
         elif op == 'select':
             c = n.args[0]
             ra, rb = refine_by_cond(c, rec)
-            def branch(node, ov):
-                if ov is None:
-                    return None            # branch infeasible
-                if not ov:
-                    return rec(node)
-                sub = dict(ov)             # fresh cache: only the refined node(s); atoms through the hook
-                return _frange(node, sub, atom)
+            def branch(node, alts):
+                if alts is None:
+                    return None                      # branch infeasible
+                out = None
+                for ov in alts:
+                    if not ov:
+                        r1 = rec(node)
+                    else:
+                        # fresh cache holding only the refinements in force (outer ones included)
+                        outer = cache.get('__ov__', {})
+                        merged = dict(outer)
+                        feasible = True
+                        for k_, v_ in ov.items():
+                            if k_ in merged:
+                                l_, h_ = max(merged[k_][0], v_[0]), min(merged[k_][1], v_[1])
+                                if l_ > h_: feasible = False; break
+                                merged[k_] = (l_, h_, merged[k_][2] and v_[2])
+                            else:
+                                merged[k_] = v_
+                        if not feasible:
+                            continue
+                        sub = dict(merged); sub['__ov__'] = merged
+                        r1 = _frange(node, sub, atom)
+                    out = r1 if out is None else (min(out[0], r1[0]), max(out[1], r1[1]), out[2] or r1[2])
+                return out
             a, b = branch(n.args[1], ra), branch(n.args[2], rb)
             if a is None and b is None: r = TOP
             elif a is None: r = b
@@ -167,12 +189,14 @@ def _frange(e, cache, atom):
         return r
     return rec(e)
 
+# round-to-nearest: |fl(x) - x| <= 2^-24 |x| (binary32; binary64 is covered a fortiori);
+# 2^-23.5 leaves room for the analyser's own double arithmetic
 def round_down(x):
     if x != x or abs(x) == INF: return x
-    return x - abs(x) * 2.0 ** -22
+    return x - abs(x) * 8.5e-8
 def round_up(x):
     if x != x or abs(x) == INF: return x
-    return x + abs(x) * 2.0 ** -22
+    return x + abs(x) * 8.5e-8
 
 APP_HOOK = [None]
 _APP_CACHE = {}
@@ -250,37 +274,81 @@ def split_binades(lo, hi):
     return out
 
 def refine_by_cond(c, rec):
-    """cache overrides for the then / else branch of a select on a simple float comparison
-    (node vs constant).  {} = no refinement, None = branch infeasible."""
-    import math
-    neg = False
-    while c.op == 'bnot':
-        c = c.args[0]; neg = not neg
-    if c.op not in ('lt', 'le', 'gt', 'ge') or not X.is_float(c.args[0].ty):
-        return {}, {}
-    a, b = c.args
-    op = c.op
-    if a.is_const and not b.is_const:
-        a, b = b, a
-        op = {'lt': 'gt', 'le': 'ge', 'gt': 'lt', 'ge': 'le'}[op]
-    if not b.is_const or a.is_const:
-        return {}, {}
-    k = b.val
-    lo, hi, nan = rec(a)
-    def clip(l, h, keep_nan):
-        if l > h:
-            return None
-        return {a.id: (l, h, keep_nan)}
-    if op in ('lt', 'le'):
-        t_ = clip(lo, min(hi, k), False)           # comparison true => not NaN
-        f_ = clip(max(lo, k), hi, nan)
-    else:
-        t_ = clip(max(lo, k), hi, False)
-        f_ = clip(lo, min(hi, k), nan)
-    if t_ is None and not nan: pass
-    if neg:
-        t_, f_ = f_, t_
-    return t_, f_
+    """Alternatives of cache overrides for the then / else branch of a select.
+    Each side is a list of override dicts (their union covers the branch), [{}] = no
+    refinement, None = infeasible.  Handles comparisons of a float node with a constant,
+    |node| comparisons (two-sided alternatives), negation, and or/and of such conditions;
+    a refined node `x -/+ const` is propagated one step back to x."""
+    def simple(c):
+        """-> (true_alts, false_alts)"""
+        if c.op == 'bnot':
+            t_, f_ = simple(c.args[0]); return f_, t_
+        if c.op == 'bor':
+            t1, f1 = simple(c.args[0]); t2, f2 = simple(c.args[1])
+            return _union(t1, t2), _conj(f1, f2)
+        if c.op == 'band':
+            t1, f1 = simple(c.args[0]); t2, f2 = simple(c.args[1])
+            return _conj(t1, t2), _union(f1, f2)
+        if c.op not in ('lt', 'le', 'gt', 'ge') or not X.is_float(c.args[0].ty):
+            return [{}], [{}]
+        a, b = c.args
+        op = c.op
+        if a.is_const and not b.is_const:
+            a, b = b, a
+            op = {'lt': 'gt', 'le': 'ge', 'gt': 'lt', 'ge': 'le'}[op]
+        if not b.is_const or a.is_const:
+            return [{}], [{}]
+        k = b.val
+        def rng(node, l, h, keep_nan):
+            lo, hi, nan = rec(node)
+            l, h = max(lo, l), min(hi, h)
+            if l > h:
+                return None
+            d = {node.id: (l, h, nan and keep_nan)}
+            # one step of backward propagation through  x - c  /  x + c
+            if node.op in ('fsub', 'fadd') and node.args[1].is_const and not node.args[0].is_const:
+                cst = node.args[1].val if node.op == 'fsub' else -node.args[1].val
+                xlo, xhi, xnan = rec(node.args[0])
+                # node = fl(x -/+ c): |node - (x -/+ c)| <= 2^-23 * |node|
+                xl, xh = max(xlo, l + cst - abs(l) * 8.5e-8), min(xhi, h + cst + abs(h) * 8.5e-8)
+                if xl <= xh:
+                    d[node.args[0].id] = (xl, xh, xnan and keep_nan)
+            return d
+        def alts(*ds):
+            ds = [d for d in ds if d is not None]
+            return ds if ds else None
+        if a.op == 'call:abs':
+            x = a.args[0]
+            if op in ('lt', 'le'):      # |x| < k
+                return alts(rng(x, -k, k, False)), alts(rng(x, k, INF, True), rng(x, -INF, -k, True))
+            return alts(rng(x, k, INF, False), rng(x, -INF, -k, False)), alts(rng(x, -k, k, True))
+        if op in ('lt', 'le'):
+            return alts(rng(a, -INF, k, False)), alts(rng(a, k, INF, True))
+        return alts(rng(a, k, INF, False)), alts(rng(a, -INF, k, True))
+    return simple(c)
+
+def _union(a, b):
+    if a is None: return b
+    if b is None: return a
+    return a + b
+
+def _conj(a, b):
+    if a is None or b is None:
+        return None
+    out = []
+    for x in a:
+        for y in b:
+            d = dict(x)
+            ok = True
+            for k_, v in y.items():
+                if k_ in d:
+                    l, h = max(d[k_][0], v[0]), min(d[k_][1], v[1])
+                    if l > h: ok = False; break
+                    d[k_] = (l, h, d[k_][2] and v[2])
+                else:
+                    d[k_] = v
+            if ok: out.append(d)
+    return out or None
 
 def libm_range(name, a):
     import math
